@@ -450,10 +450,12 @@ class Account:
             return ""
         try:
             Mnemonic().mnemonic_decode(seed)
-        except IndexError:
-            # failed to decode the seed, this either means it decrypted and is invalid
-            # or that we hit an edge case where an incorrect password gave valid padding
-            raise ValueError("Failed to decode seed.")
+        except (IndexError, ValueError):
+            # not lower-case words of the english list: either an incorrect password gave valid
+            # padding, or the phrase was imported in another spelling/language (mnemonic_to_seed
+            # normalises any text), in which case it still derives this account's public key
+            if self.get_private_key_from_seed(self.ledger, seed, '').public_key.address != self.id:
+                raise ValueError("Failed to decode seed.")
         return seed
 
     def encrypt(self, password: str) -> bool:
